@@ -28,6 +28,7 @@ func TestVerifRaceConfirm(t *testing.T) {
 			go func() { defer wg.Done(); vcallFeeQuote(fq, m2, body) }()
 		} else {
 			f := NewFeeQuotes("a")
+			vC18Held, _ = f.Quote("a")
 			go func() { defer wg.Done(); vcallFeeQuotes(f, m1) }()
 			go func() { defer wg.Done(); vcallFeeQuotes(f, m2) }()
 		}
